@@ -3,7 +3,7 @@
    Concurrency model: every writing transaction is one atomic step (SQLite: write pool MaxOpenConns(1),
    _txlock=immediate), so an execution of n client threads is an interleaving of whole op_append steps; the
    theorems quantify over ALL schedules that are interleavings of the threads' programs. *)
-From Verif Require Import Bytes Codec Md5 Meta MetaBasics MetaWitness MetaConc MetaConcBase MetaConcState MetaConcAppend.
+From Verif Require Import Bytes Codec Md5 Meta MetaBasics MetaWitness MetaConc MetaConcBase MetaConcState MetaConcAppend MetaIP MetaIPProofs.
 From Coq Require Import Permutation.
 
 (* An append with write offset o is acknowledged iff o equals the current size of the current object (0 when the key
@@ -88,6 +88,68 @@ Theorem C12_results_are_model_results : forall ops i hist s,
   snd (run_from i hist s ops) = rev hist ++ run_results i hist s ops.
 Proof. exact run_results_is_run_from. Qed.
 Print Assumptions C12_results_are_model_results.
+
+(* ================= READ COMMITTED visibility (a backend that does not serialize write transactions) =================
+   Model/MetaIP.v: the victim AppendObject as its sequence of repository calls (layer-1 HeadObject reads, dedup lookup,
+   layer-2 reads of sqlMetadataStore.AppendObject, part-prefix check, compare-and-swap on the version column); an
+   arbitrary RIVAL (any function on the row store, in particular any atomic operation of Model/Meta.v) runs at boundary
+   p and is visible to every later statement.  Quantified over ALL boundaries p and ALL rivals. *)
+
+(* the full statement: when victim and rival appends are both acknowledged, the object grows by both chunks *)
+Definition C12_ip_every_ack_counts_full : Prop :=
+  forall (p : nat) (s0 : mstate) (vn : N) (b k c cr : bytes) (off offr : option Z) s' e z er zr,
+    ip_append p (fun s => op_append (with_ids s (vn + 1)) (vn + 1) b k cr offr) (with_ids s0 vn) vn b k c off
+      = (s', RAppend e z, Some (RAppend er zr)) ->
+    cur_size s' b k = (cur_size s0 b k + zlen c + zlen cr)%Z.
+
+(* REFUTED on the faithful model: victim and rival append the same bytes (dedup gives both the same part id, so the
+   victim's manifest equals the stored one and the part-prefix check passes): two acknowledgements, one chunk *)
+Theorem C12_ip_every_ack_counts_refuted : ~ C12_ip_every_ack_counts_full.
+Proof.
+  intros H. destruct witness_identical_bytes_shape as (s' & e & z & er & zr & E & W1 & W0).
+  pose proof (H 2%nat ws_one 2%N wb wk cB cB None None s' e z er zr E) as X.
+  rewrite W1, W0 in X. change (zlen cB) with 8%Z in X. discriminate X.
+Qed.
+Print Assumptions C12_ip_every_ack_counts_refuted.
+
+(* second witness: versioning enabled — AppendObject becomes PutObject of a version computed from the victim's stale
+   read; nothing guards it, the rival's acknowledged chunk is not in the current object *)
+Theorem C12_ip_enabled_lost_append_witness : exists s' e z er zr,
+  ip_append 2 (fun s => op_append (with_ids s (3 + 1)) (3 + 1) wb wk cC None) (with_ids ws_one_enabled 3) 3 wb wk cB None
+    = (s', RAppend e z, Some (RAppend er zr)) /\ cur_chunks s' wb wk = [cA; cB].
+Proof. exact witness_enabled_shape. Qed.
+Print Assumptions C12_ip_enabled_lost_append_witness.
+
+(* third witness: the rival replaces the object by a put whose bytes equal the object's first part (dedup gives it
+   that part id); the stored list [p1] is a prefix of the victim's manifest [p1; p2; new], the victim re-attaches the
+   condemned p2 and is acknowledged — the object cannot be read afterwards *)
+Theorem C12_ip_dedup_prefix_put_witness : exists s' e z v ep,
+  ip_append 2 (fun s => op_put (with_ids s (3 + 1)) (3 + 1) wb wk cA CNone) (with_ids ws_two 3) 3 wb wk cC None
+    = (s', RAppend e z, Some (RPut v ep)) /\ op_get s' wb wk None = RErr OtherErr.
+Proof. exact witness_dedup_prefix_put_shape. Qed.
+Print Assumptions C12_ip_dedup_prefix_put_witness.
+
+(* what holds for every boundary and every rival.  (1) unversioned / suspended bucket: an acknowledged append either
+   found no latest row (and inserted one under the unique index) or its compare-and-swap succeeded, in the state the
+   write was applied to, on the version of the row it had read — with at most the rival in between *)
+Theorem C12_ip_inplace_cas_guard : forall p (rv : rivalf) s0 vn b k c off bk s' r ro,
+  find_bucket s0 b = Some bk -> b_ver bk <> VEnabled ->
+  ip_append p rv s0 vn b k c off = (s', r, ro) -> (forall x, r <> RErr x) ->
+  (exists s_read, find_latest s_read b k = None /\ unique_ok s' = true) \/
+  (exists s_read s_cas old x,
+     find_latest s_read b k = Some old /\ (s_cas = s_read \/ s_cas = fst (rv s_read)) /\
+     In x (objs s_cas) /\ o_id x = o_id old /\ o_lock x = o_lock old).
+Proof. exact ip_append_inplace_cas. Qed.
+Print Assumptions C12_ip_inplace_cas_guard.
+
+(* (2) a rejected append leaves no trace: the store is the initial one, or the initial one with the rival alone applied *)
+Theorem C12_ip_rejected_leaves_no_trace : forall p (rv : rivalf) s0 vn b k c off,
+  match snd (fst (ip_append p rv s0 vn b k c off)) with
+  | RErr _ => fst (fst (ip_append p rv s0 vn b k c off)) = s0 \/ fst (fst (ip_append p rv s0 vn b k c off)) = fst (rv s0)
+  | _ => True
+  end.
+Proof. exact ip_append_rejected. Qed.
+Print Assumptions C12_ip_rejected_leaves_no_trace.
 
 (* ---- non-vacuity ---- *)
 Example C12_ex_inv_init : CInv init.
